@@ -235,3 +235,74 @@ theorem vectorCalib_eq (e c s a : ℝ) (n : ℕ) :
   simp only [vectorCalib, gen_epsilonP, gen_epsilonPFallback, gen_deltaFallback, gen_scale, transc_log, transc_exp, expm1]
   all_goals first | rfl | (split_ifs <;> rfl) | (split_ifs <;> simp)
 """
+
+
+def c07_specs():
+    TU = "diffprivlib/tools/utils.py"
+    env = {"upper": "u", "lower": "l", "array.size": "(n : ℝ)", "epsilon": "ε", "dummy.size": "(m : ℝ)"}
+    B = "(l u : ℝ) (n : ℕ)"
+    A_ = "l u n"
+
+    def kw(name, func, callee, k, hand, binders=B, args=A_, tactic="all_goals first | rfl | ring | (norm_num; ring)"):
+        return dict(name=name, file=TU, func=func, pick=dict(call_kw=(callee, k)), env=env, binders=binders, args=args,
+                    hand=hand, tactic=tactic)
+    return [
+        kw("meanSens", "_mean", "LaplaceTruncated", "sensitivity", "(u - l) / (n : ℝ)"),
+        kw("meanLower", "_mean", "LaplaceTruncated", "lower", "l", "(l : ℝ)", "l"),
+        kw("meanUpper", "_mean", "LaplaceTruncated", "upper", "u", "(u : ℝ)", "u"),
+        kw("varSens", "_var", "LaplaceBoundedDomain", "sensitivity", "Tools.varSens n l u",
+           tactic="simp only [Tools.varSens]\nall_goals first | rfl | ring | (norm_num; ring)"),
+        kw("varLower", "_var", "LaplaceBoundedDomain", "lower", "0", "", ""),
+        kw("varUpper", "_var", "LaplaceBoundedDomain", "upper", "((u - l) * (u - l)) / 4", "(l u : ℝ)", "l u"),
+        kw("sumSens", "_sum", "mech", "sensitivity", "u - l", "(l u : ℝ)", "l u"),
+        kw("sumLower", "_sum", "mech", "lower", "l * (n : ℝ)", "(l : ℝ) (n : ℕ)", "l n"),
+        kw("sumUpper", "_sum", "mech", "upper", "u * (n : ℝ)", "(u : ℝ) (n : ℕ)", "u n"),
+        kw("cellEps", "_wrap_axis", "func", "epsilon", "ε / (m : ℝ)", "(ε : ℝ) (m : ℕ)", "ε m"),
+    ]
+
+
+C07_POST = """
+/-- the mechanism configured by `_mean` / `_var` / `_sum` as coded (read from the AST) IS the call of the model's plan -/
+theorem meanPlan_call (n : ℕ) (ε l u : ℝ) :
+    Tools.meanPlan n ε l u = Tools.single ⟨"LaplaceTruncated", ε, 0, gen_meanSens l u n, gen_meanLower l, gen_meanUpper u, .osCsprng⟩
+      (fun D => Tools.mean (D.map (Tools.clip l u))) := by
+  simp only [Tools.meanPlan, gen_meanSens, gen_meanLower, gen_meanUpper]
+
+theorem varPlan_call (n : ℕ) (ε l u : ℝ) :
+    Tools.varPlan n ε l u = Tools.single ⟨"LaplaceBoundedDomain", ε, 0, gen_varSens l u n, gen_varLower, gen_varUpper l u, .osCsprng⟩
+      (fun D => Tools.var (D.map (Tools.clip l u))) := by
+  rw [gen_varSens_eq, gen_varUpper_eq, gen_varLower_eq]
+  rfl
+
+theorem sumPlan_call (n : ℕ) (ε l u : ℝ) :
+    Tools.sumPlan n ε l u = Tools.single ⟨"LaplaceTruncated", ε, 0, gen_sumSens l u, gen_sumLower l n, gen_sumUpper u n, .osCsprng⟩
+      (fun D => Tools.sum (D.map (Tools.clip l u))) := by
+  simp only [Tools.sumPlan, gen_sumSens, gen_sumLower, gen_sumUpper]
+"""
+
+
+def c08_specs():
+    NB = "diffprivlib/models/naive_bayes.py"
+    LR = "diffprivlib/models/linear_regression.py"
+    KM = "diffprivlib/models/k_means.py"
+    fin = "all_goals first | rfl | ring | (norm_num; ring) | (push_cast; ring)"
+    mx = ("simp only [PM.sumSens, PM.pmax, PM.pabs]\n"
+          "split_ifs <;> simp_all only [max_def, abs_of_neg, abs_of_nonneg, not_lt, not_le] <;> "
+          "first | rfl | (split_ifs <;> first | rfl | linarith) | linarith")
+    return [
+        dict(name="gnbLocalEps", file=NB, func="GaussianNB._update_mean_variance", pick=dict(assign_target="local_epsilon"),
+             env={"self.epsilon": "ε", "n_features": "(d : ℝ)"}, binders="(ε : ℝ) (d : ℕ)", args="ε d",
+             hand="ε / PM.nat 3 / (d : ℝ)", tactic="simp only [PM.nat]\n" + fin),
+        dict(name="gnbCountEps", file=NB, func="GaussianNB._noisy_class_counts", pick=dict(call_kw=("GeometricTruncated", "epsilon")),
+             env={"self.epsilon": "ε"}, binders="(ε : ℝ)", args="ε", hand="ε / 3", tactic=fin),
+        dict(name="gnbSumSens", file=NB, func="GaussianNB._update_mean_variance",
+             pick=dict(call_kw=("LaplaceTruncated", "sensitivity")),
+             env={"lower": "lo", "upper": "hi", "local_diameter": "(hi - lo)"}, binders="(lo hi : ℝ)", args="lo hi",
+             hand="PM.sumSens lo hi", tactic=mx),
+        dict(name="kmSumSens", file=KM, func="KMeans._update_centers", pick=dict(call_kw=("LaplaceBoundedDomain", "sensitivity")),
+             env={"self.bounds[0][i]": "lo", "self.bounds[1][i]": "hi"}, binders="(lo hi : ℝ)", args="lo hi",
+             hand="PM.sumSens lo hi", tactic=mx),
+        dict(name="linLocalEps", file=LR, func="_construct_regression_obj", pick=dict(assign_target="local_epsilon"),
+             env={"epsilon": "ε", "n_targets": "(t : ℝ)", "n_features": "(d : ℝ)"}, binders="(ε : ℝ) (t d : ℕ)", args="ε t d",
+             hand="ε / ((t : ℝ) + (t : ℝ) * (d : ℝ) + (d : ℝ) * ((d : ℝ) + 1) / 2)", tactic=fin),
+    ]
